@@ -6,6 +6,7 @@ import (
 	"strings"
 
 	"github.com/hashicorp/hcl/v2"
+	"github.com/hashicorp/hcl/v2/ext/customdecode"
 	"github.com/hashicorp/hcl/v2/ext/dynblock"
 	"github.com/hashicorp/hcl/v2/hcldec"
 	"github.com/hashicorp/hcl/v2/hclsyntax"
@@ -22,14 +23,18 @@ type BodyCase struct {
 	Syntax string `json:"syntax"` // native | json
 }
 
-const bodyRule = "bodies: 31 native body templates and 6 JSON bodies (attributes, static blocks, blocks not mentioned by the spec, dynamic blocks with default/custom/shadowing iterators, labels from the iterator, nested dynamics referring to outer iterators) x 13 hcldec specs (incl. DefaultSpec with an attribute default, a four-level nesting spec and a spec that uses one block type name with different nested specs at three places); reported = hcldec.Variables (static bodies) or dynblock.ExpandVariablesHCLDec + dynblock.VariablesHCLDec (bodies with dynamic blocks); Expand+Decode in the full scope must equal Expand+Decode in the pruned and altered scopes; iterator names must not be reported"
+const bodyRule = "bodies: 6 merged multi-file bodies (references to different variables at the same byte offsets of different files), 31 native body templates and 6 JSON bodies (attributes, static blocks, blocks not mentioned by the spec, dynamic blocks with default/custom/shadowing iterators, labels from the iterator, nested dynamics referring to outer iterators) x 14 hcldec specs (incl. custom-decoded expression closures, DefaultSpec with an attribute default, a four-level nesting spec and a spec that uses one block type name with different nested specs at three places); reported = hcldec.Variables (static bodies) or dynblock.ExpandVariablesHCLDec + dynblock.VariablesHCLDec (bodies with dynamic blocks); Expand+Decode in the full scope must equal Expand+Decode in the pruned and altered scopes; iterator names must not be reported"
 
 var attrA = &hcldec.AttrSpec{Name: "a", Type: cty.DynamicPseudoType}
 var inner = hcldec.ObjectSpec{"a": attrA}
 var innerC = hcldec.ObjectSpec{"a": attrA, "c": &hcldec.BlockListSpec{TypeName: "c", Nested: hcldec.ObjectSpec{"a": attrA}}}
 
 var specTable = map[string]hcldec.Spec{
-	"attr":    hcldec.ObjectSpec{"a": attrA},
+	"attr": hcldec.ObjectSpec{"a": attrA},
+	// attributes whose type makes hcldec hand the expression itself to a custom decoder
+	// (ext/customdecode): a closure that is evaluated later, in the context it was decoded with
+	"closure": hcldec.ObjectSpec{"a": &hcldec.AttrSpec{Name: "a", Type: customdecode.ExpressionClosureType},
+		"b": &hcldec.BlockTupleSpec{TypeName: "b", Nested: hcldec.ObjectSpec{"a": &hcldec.AttrSpec{Name: "a", Type: customdecode.ExpressionClosureType}}}},
 	"block":   hcldec.ObjectSpec{"b": &hcldec.BlockSpec{TypeName: "b", Nested: inner}},
 	"list":    hcldec.ObjectSpec{"a": attrA, "b": &hcldec.BlockListSpec{TypeName: "b", Nested: inner}},
 	"tuple":   hcldec.ObjectSpec{"b": &hcldec.BlockTupleSpec{TypeName: "b", Nested: inner}},
@@ -63,6 +68,7 @@ type tmpl struct {
 	nested bool
 	bound  []string // names bound by iterators that must not be reported
 	isJSON bool
+	merged bool   // several files separated by "---" lines, merged with hcl.MergeBodies
 	only   string // when set: only with this spec
 }
 
@@ -102,6 +108,13 @@ var templates = []tmpl{
 	{text: "g {\n  b {\n    c = one\n    b {\n      d = two\n    }\n  }\n}\nb {\n  a = sa\n}\n", only: "same-name"},
 	{text: "b {\n  a = sa\n}\ng {\n  dynamic \"b\" {\n    for_each = ln\n    content {\n      c = b.value + one\n      dynamic \"b\" {\n        for_each = [two]\n        iterator = it\n        content {\n          d = \"${it.value}${s1}\"\n        }\n      }\n    }\n  }\n}\n", only: "same-name", bound: []string{"b", "it"}},
 	{text: "dynamic \"b\" {\n  for_each = ls\n  content {\n    a = \"${b.value}${sa}\"\n  }\n}\ndynamic \"g\" {\n  for_each = [one]\n  content {\n    b {\n      c = g.value + two\n      b {\n        d = s1\n      }\n    }\n  }\n}", only: "same-name", bound: []string{"b", "g"}},
+	// merged files whose references to different variables start at the same byte offsets
+	{text: "a = sa\n---\nb {\n  a = ls\n}\n---\nb {\n  a = two\n}\n", merged: true, only: "list"},
+	{text: "b {\n  a = s1\n}\n---\nb {\n  a = ls\n}\n---\na = one\n", merged: true, only: "list"},
+	{text: "b {\n  a = s1\n}\n---\nb {\n  a = ls\n}\n", merged: true, only: "tuple"},
+	{text: "b {\n  x = s1\n}\n---\nb {\n  x = ls[0]\n  y = sa\n}\n", merged: true, only: "attrs"},
+	{text: "{\"a\": \"${sa}\"}\n---\nb {\n  a = \"${one}\"\n}\n---\n{\"b\": {\"a\": \"${two}\"}}", merged: true, only: "list"},
+	{text: "dynamic \"b\" {\n  for_each = ls\n  content {\n    a = b.value\n  }\n}\n---\ndynamic \"b\" {\n  for_each = ln\n  content {\n    a = b.value\n  }\n}\n", merged: true, only: "list", bound: []string{"b"}},
 	// JSON bodies
 	{text: `{"a": "${sa}-${one}"}`, isJSON: true},
 	{text: `{"a": ["${sa}", {"${s1}": "${two}"}]}`, isJSON: true},
@@ -136,6 +149,9 @@ func genBodies(tier string, emit func(engine.Case) bool) {
 			if t.isJSON {
 				syn = "json"
 			}
+			if t.merged {
+				syn = "merged"
+			}
 			id := fmt.Sprintf("body/%d/%s", ti, sn)
 			if !emit(engine.Case{ID: id, Data: Data{Kind: "body", Family: "body", Src: t.text, Body: &BodyCase{Text: t.text, Spec: sn, Syntax: syn}}}) {
 				return
@@ -151,7 +167,27 @@ func judgeBody(d Data) engine.Outcome {
 		return engine.Skip()
 	}
 	var body hcl.Body
-	if bc.Syntax == "json" {
+	if bc.Syntax == "merged" {
+		// several files (separated by a line "---"; a part that starts with "{" is JSON), merged;
+		// all of them are called alike and start at the same position, as separately loaded files do
+		var bodies []hcl.Body
+		for _, part := range strings.Split(bc.Text, "\n---\n") {
+			if strings.HasPrefix(part, "{") {
+				f, diags := hcljson.Parse([]byte(part), "main.tf.json")
+				if diags.HasErrors() {
+					return engine.Skip()
+				}
+				bodies = append(bodies, f.Body)
+			} else {
+				f, diags := hclsyntax.ParseConfig([]byte(part), "main.tf", hcl.InitialPos)
+				if diags.HasErrors() {
+					return engine.Skip()
+				}
+				bodies = append(bodies, f.Body)
+			}
+		}
+		body = hcl.MergeBodies(bodies)
+	} else if bc.Syntax == "json" {
 		f, diags := hcljson.Parse([]byte(bc.Text), "t.json")
 		if diags.HasErrors() {
 			return engine.Skip()
@@ -188,6 +224,15 @@ func judgeBody(d Data) engine.Outcome {
 			b = dynblock.Expand(body, ctx)
 		}
 		v, diags := hcldec.Decode(b, spec, ctx)
+		// expression closures are evaluated (in the context they captured) and replaced by their results
+		v, _ = cty.Transform(v, func(_ cty.Path, val cty.Value) (cty.Value, error) {
+			if val.Type() == customdecode.ExpressionClosureType && val.IsKnown() && !val.IsNull() {
+				r, rd := customdecode.ExpressionClosureFromVal(val).Value()
+				diags = append(diags, rd...)
+				return r, nil
+			}
+			return val, nil
+		})
 		return summarize(v, diags)
 	}
 	o0, o1, o2 := decode(full), decode(pruned), decode(altered)
